@@ -130,6 +130,21 @@ def run(ctx, b, broken):
             "enum-body-many-declarators": "enum { " + ", ".join(f"E{i}" for i in range(k)) + " } " + ", ".join(f"*w{i}" for i in range(k)) + ";",
             "typedef-struct-many-names": "typedef struct Tag { " + " ".join(f"char c{i};" for i in range(k)) + " } " + ", ".join(f"T{i}" for i in range(k)) + ";",
             "prototype-many-parameters-many-declarators": "int " + ", ".join(f"f{i}(int a, char *b, long c)" for i in range(k)) + ";",
+            # long runs inside ONE construct (the work per element must not depend on how many came before)
+            "member-chain": "void f(void){ x = a" + ".m" * k + "; }",
+            "arrow-chain": "void f(void){ x = p" + "->n" * k + "; }",
+            "subscript-chain": "void f(void){ x = a" + "[1]" * k + "; }",
+            "call-chain": "void f(void){ x = g" + "(1)" * k + "; }",
+            "postincrement-chain": "void f(void){ x = a" + "++" * k + "; }",
+            "pointer-stars": "int " + "*" * k + "p;",
+            "nested-structs": "".join(f"struct S{i} {{ int a{i}; " for i in range(k // 8)) + "".join(f"}} m{i}; " for i in range(k // 8)) + "int end;",
+            "nested-blocks": "void f(void){ " + "{ x++; " * (k // 8) + "}" * (k // 8) + " }",
+            "nested-function-pointer-parameters": "void f0(" + "".join(f"void (*p{i})(" for i in range(k // 16)) + "int" + ")" * (k // 16) + ");",
+            "linemarker-run-between-two-tokens": "int a;\n" + "".join(f'# {i + 1} "f.h"\n' for i in range(k)) + "int b;\n",
+            "pragma-run": "".join(f"#pragma p{i}\n" for i in range(k)) + "int c;\n",
+            "knr-parameters": "int f(" + ", ".join(f"a{i}" for i in range(k)) + ") " + " ".join(f"int a{i};" for i in range(k)) + " { return 0; }",
+            "typedef-names-in-scope": " ".join(f"typedef int T{i};" for i in range(k)) + " " + " ".join(f"T{i} v{i};" for i in range(k)),
+            "case-labels-one-statement": "void f(int x){ switch (x) { " + " ".join(f"case {i}:" for i in range(k)) + " x = 1; } }",
         }
     import subprocess, sys as _sys
 
@@ -140,7 +155,9 @@ def run(ctx, b, broken):
     K = 1200 if ctx.tier == "quick" else 3000
     MULT = {"linemarkers": 8, "line-directives": 10, "pragmas": 10, "big-switch": 3, "switch-label-runs": 4, "big-struct": 4, "big-enum": 6, "big-initlist": 4,
             "big-block": 4, "string-concat": 15, "wstring-concat": 15, "many-functions": 2, "array-dims": 2, "typedef-uses": 4, "call-args": 5, "else-if-chain": 1,
-            "struct-body-many-declarators": 1, "enum-body-many-declarators": 1, "typedef-struct-many-names": 1, "prototype-many-parameters-many-declarators": 1}
+            "struct-body-many-declarators": 1, "enum-body-many-declarators": 1, "typedef-struct-many-names": 1, "prototype-many-parameters-many-declarators": 1,
+            "member-chain": 1, "arrow-chain": 1, "subscript-chain": 1, "call-chain": 1, "postincrement-chain": 1, "pointer-stars": 1, "nested-structs": 1, "nested-blocks": 1,
+            "nested-function-pointer-parameters": 1, "linemarker-run-between-two-tokens": 4, "pragma-run": 4, "knr-parameters": 2, "typedef-names-in-scope": 2, "case-labels-one-statement": 2}
     names = list(timed(4))
     small = {n_: timed(K * MULT[n_])[n_] for n_ in names}
     large = {n_: timed(2 * K * MULT[n_])[n_] for n_ in names}
